@@ -63,6 +63,11 @@ func (p *prefixedReadSeekCloser) Read(b []byte) (int, error) {
 		k, _ := p.prefix.Read(b[:prefBytes]) // io.EOF can't happen because of prefBytes and bytes.Reader can't have other errors.
 		n = k
 	}
+	if prefBytes == len(b) {
+		// no room left, rest must not be asked: some readers return
+		// io.EOF for an empty buffer while prefix still has data
+		return n, nil
+	}
 
 	k, err := p.rest.Read(b[prefBytes:])
 	n += k
